@@ -159,7 +159,7 @@ Section RT.
   Hypothesis Hleaf : leaf_sound L.
   Hypothesis Hwf : wf_universe U = true.
 
-  Notation enc := (enc L C U).
+  Notation enc := (enc L U).
   Notation dec := (dec L C U).
   Notation norm := (norm U).
   Notation xconf := (xconf L U).
@@ -670,11 +670,11 @@ Section RT.
       cbn [XmlX.norm]. unfold flat_fields. rewrite Efd. cbn [option_map]. rewrite Hsnd. f_equal.
       apply map_norm_fields; [exact Hlen|]. intros f x Hin. apply A3. exact Hin.
     - (* wrapped array *)
-      destruct t as [| |e mname]; try discriminate. cbn [XmlX.xconf] in Hx.
-      destruct (mapM_Forall2 (enc k e (arr_ns C U e) mname)
+      destruct t as [| |e mns mname]; try discriminate. cbn [XmlX.xconf] in Hx.
+      destruct (mapM_Forall2 (enc k e mns mname)
                   (fun y el => dec k e true (wire el) = Ok (norm k e y)) xs) as [es [He HF]].
       { intros y Hy. rewrite forallb_forall in Hx.
-        destruct (IH e y (arr_ns C U e) mname true (Hx y Hy)) as [a [tx [ks [H1 H2]]]].
+        destruct (IH e y mns mname true (Hx y Hy)) as [a [tx [ks [H1 H2]]]].
         { intros _. apply andb_false_r. }
         eexists. split; [exact H1|exact H2]. }
       exists [], None, es. split; [cbn [XmlX.enc]; rewrite He; reflexivity|].
@@ -688,7 +688,7 @@ Theorem xmlx_rt : forall (L : leaf_codec) (C : xcfg) (U : universe),
   leaf_sound L -> wf_universe U = true ->
   forall n t v ns name nillable, xconf L U n t v = true ->
     (nonelike v = true -> x_soft C && negb nillable = false) ->
-    exists e, enc L C U n t ns name v = Ok e
+    exists e, enc L U n t ns name v = Ok e
               /\ dec L C U n t nillable (wire e) = Ok (norm U n t v).
 Proof.
   intros L C U Hleaf Hwf n t v ns name nillable Hx Hn.
